@@ -56,8 +56,10 @@ def gen_graph(rng):
             ps.append(rng.choice(ps))           # a parent named twice
         rng.shuffle(ps)
         parents[nm] = ps
-        sep = rng.choice([",", ", ", " ,"])
-        decl = ("!" if nm in internal else "") + nm + ((":" + sep.join(ps)) if ps else "")
+        # (a declaration may be wrapped over several lines or aligned with tabs)
+        sep = rng.choice([",", ", ", " ,", ",\n      ", "\t,", ", \t"])
+        lead = rng.choice(["", "", " ", "\t", "\n   "])
+        decl = ("!" if nm in internal else "") + nm + ((":" + lead + sep.join(ps)) if ps else "")
         help_ = "help " + nm if rng.random() < 0.7 else ("help " + nm, "description of " + nm)
         cmds.append((decl, help_))
     real = [nm for nm in names if nm not in internal]
